@@ -8,6 +8,7 @@ from bip_utils.bech32.bech32_base import Bech32BaseUtils
 from bip_utils.utils.misc import Base32Decoder, Base32Encoder
 from bip_utils import SS58Decoder, SS58Encoder
 import hashlib
+from bip_utils.utils.misc import CborIndefiniteLenArrayDecoder, CborIndefiniteLenArrayEncoder
 from bip_utils.substrate.scale import (SubstrateScaleBytesEncoder, SubstrateScaleCUintEncoder, SubstrateScaleU8Encoder,
                                        SubstrateScaleU16Encoder, SubstrateScaleU32Encoder, SubstrateScaleU64Encoder,
                                        SubstrateScaleU128Encoder, SubstrateScaleU256Encoder)
@@ -859,6 +860,127 @@ def gen_scale(ctx):
         ctx.run("scale_bytes", [rand_bytes(rng, 300)], "rand")
 
 
+# ------------------------------------------------------------------ CBOR indefinite-length array
+def cbor_uint_ref(n):
+    """RFC 8949 major type 0, preferred (shortest) serialisation."""
+    if n < 24:
+        return bytes([n])
+    for info, k in ((24, 1), (25, 2), (26, 4), (27, 8)):
+        if n < 256 ** k:
+            return bytes([info]) + n.to_bytes(k, "big")
+    raise ValueError("not a uint64")
+
+
+def _cbor_item(e):
+    """Canonical form of a decoded element: ints stay ints, other cbor2 objects are identified by their byte."""
+    import cbor2
+    if type(e) is int:
+        return Z(e)
+    table = {bytes: 0x40, str: 0x60, list: 0x80, dict: 0xa0}
+    if type(e) in table and len(e) == 0:
+        return [table[type(e)]]
+    if e is False:
+        return [0xf4]
+    if e is True:
+        return [0xf5]
+    if e is None:
+        return [0xf6]
+    if e is cbor2.undefined:
+        return [0xf7]
+    if isinstance(e, cbor2.CBORSimpleValue):
+        return [0xe0 + e.value]
+    raise TypeError("unexpected decoded element %r" % (e,))
+
+
+def d_cbor_enc(a):
+    l, = a
+    e = CborIndefiniteLenArrayEncoder.Encode(l)
+    if all(0 <= x < 2 ** 64 for x in l):
+        want = b"\x9f" + b"".join(cbor_uint_ref(x) for x in l) + b"\xff"
+        if e != want:
+            return "CBOR Encode(%r) = %s, RFC 8949 gives %s" % (l, e.hex(), want.hex())
+        try:
+            d = CborIndefiniteLenArrayDecoder.Decode(e)
+        except ValueError as ex:
+            return "CBOR Decode(Encode(%r)) raised ValueError: %s" % (l, ex)
+        if d != l:
+            return "CBOR Decode(Encode(%r)) = %r" % (l, d)
+    return None
+
+
+def cbor_empty_array(fn, args, record):
+    """Finding C11-CBOR-EMPTY: the round trip of the EMPTY array only (direct check on Encode([]))."""
+    return fn == "cbor_encode" and record.get("kind") == "direct" and list(args[0]) == []
+
+
+def cbor_empty_array_replay():
+    e = CborIndefiniteLenArrayEncoder.Encode([])
+    try:
+        d = CborIndefiniteLenArrayDecoder.Decode(e)
+    except ValueError as ex:
+        return "Decode(Encode([])) = Decode(%s) raises ValueError (%s)" % (e.hex(), ex)
+    return None if d == [] else "Decode(Encode([])) = %r" % (d,)
+
+
+FUNCS.update({
+    "cbor_encode": Func(model=lambda m, a: m.call("cbor_encode", [Z(x) for x in a[0]]),
+                        impl=lambda a: CborIndefiniteLenArrayEncoder.Encode(a[0]), direct=d_cbor_enc),
+    "cbor_decode": Func(model=lambda m, a: m.call("cbor_decode", a[0]),
+                        impl=lambda a: [_cbor_item(e) for e in CborIndefiniteLenArrayDecoder.Decode(a[0])]),
+})
+
+
+def gen_cbor(ctx):
+    rng = ctx.rng
+    edges = sorted({0, 1, 22, 23, 24, 25, 254, 255, 256, 257, 65534, 65535, 65536, 65537, 2 ** 31, 2 ** 32 - 1, 2 ** 32,
+                    2 ** 32 + 1, 2 ** 63, 2 ** 64 - 2, 2 ** 64 - 1})
+    ctx.run("cbor_encode", [[]], "empty", trivial=True)
+    for v in edges:
+        ctx.run("cbor_encode", [[v]], "threshold", trivial=(v == 0))
+        ctx.run("cbor_encode", [[v, v]], "threshold")
+        ctx.run("cbor_encode", [[0, v, 2 ** 31 + 5]], "threshold")
+        ctx.run("cbor_decode", [b"\x9f" + cbor_uint_ref(v) + b"\xff"], "threshold")
+    for v in (2 ** 64, 2 ** 64 + 1, 2 ** 200, -1, -24, -25, -256, -2 ** 64, -2 ** 64 - 1):
+        ctx.run("cbor_encode", [[v]], "outside-uint64")        # bignum / negative encodings of cbor2 (model only claims uints)
+    for v in range(0, 300):
+        ctx.run("cbor_encode", [[v]], "small")
+    # decoder: every byte as a one-byte element, every byte after each uint marker, every short input
+    for b in range(256):
+        ctx.run("cbor_decode", [bytes([0x9f, b, 0xff])], "onebyte")
+        ctx.run("cbor_decode", [bytes([0x9f, b])], "onebyte-noend")
+        ctx.run("cbor_decode", [bytes([b, 0x00, 0xff])], "firstbyte")
+        ctx.run("cbor_decode", [bytes([0x9f, 0x00, b])], "lastbyte")
+        for mk, k in ((0x18, 1), (0x19, 2), (0x1a, 4), (0x1b, 8)):
+            ctx.run("cbor_decode", [bytes([0x9f, mk]) + bytes([b]) * k + b"\xff"], "marker")
+    for mk, k in ((0x18, 1), (0x19, 2), (0x1a, 4), (0x1b, 8)):
+        for n in range(0, k + 2):
+            ctx.run("cbor_decode", [bytes([0x9f, mk]) + b"\x01" * n + b"\xff"], "truncated")
+            ctx.run("cbor_decode", [bytes([0x9f, mk]) + b"\xff" * n + b"\xff"], "truncated-ff")
+    for raw in (b"", b"\x9f", b"\x9f\xff", b"\xff\xff\xff", b"\x9f\xff\xff", b"\x9f\xff\x00\xff", b"\x9f\x01\xff\x02\xff",
+                b"\x9f\x18\x05\xff", b"\x9f\x19\x00\x05\xff", b"\x9f\x1b" + bytes(8) + b"\xff"):
+        ctx.run("cbor_decode", [raw], "directed", trivial=(raw == b""))
+    two = range(65536) if not ctx.quick else list(range(0, 200)) + [rng.randrange(65536) for _ in range(300)]
+    for x in two:
+        ctx.run("cbor_decode", [b"\x9f" + x.to_bytes(2, "big") + b"\xff"], "twobytes")
+    ctx.note_exhaustive("CBOR array: every byte value as a one-byte element, as first/last byte and after each uint marker; "
+                        "all uint thresholds +-1; 2-byte bodies (all in thorough)")
+    for _ in range(ctx.n(300, 5000)):
+        l = [rng.getrandbits(rng.choice([1, 4, 5, 8, 9, 16, 17, 31, 32, 33, 63, 64])) for _ in range(rng.randrange(1, 6))]
+        ctx.run("cbor_encode", [l], "rand")
+        e = bytearray(CborIndefiniteLenArrayEncoder.Encode(l))
+        ctx.run("cbor_decode", [bytes(e)], "valid")
+        k = rng.randrange(4)
+        if k == 0:
+            e[rng.randrange(len(e))] = rng.randrange(256)
+        elif k == 1:
+            del e[rng.randrange(len(e))]
+        elif k == 2:
+            e.insert(rng.randrange(len(e) + 1), rng.choice([0x18, 0x19, 0x1a, 0x1b, 0xff, 0x00, 0x9f]))
+        else:
+            e = e[:rng.randrange(len(e) + 1)]
+        ctx.run("cbor_decode", [bytes(e)], "mutated")
+
+
 def rand_bytes(rng, maxlen=200):
     k = rng.choice([0, 0, 1, 2, 3])
     n = rng.choice([0, 1, 2, 3, 4, 5, 8, 16, 20, 21, 25, 32, 33, 37, 64, 65, 78, 82, rng.randrange(maxlen)])
@@ -873,6 +995,7 @@ def generate(ctx):
     gen_base32(ctx)
     gen_ss58(ctx)
     gen_scale(ctx)
+    gen_cbor(ctx)
 
 
 def gen_b58(ctx):
